@@ -59,8 +59,11 @@ type c16Ptr struct {
 type c16Nil struct{}
 
 type c16Opq struct {
-	typ types.Type
-	why string
+	typ  types.Type
+	why  string
+	deps map[string]bool // points the value depends on (symbolic comparisons)
+	cmp  *c16Cmp         // the comparison of symbolic floats it stands for, if any
+	neg  bool            // it stands for the negation of cmp
 }
 
 type c16Closure struct {
@@ -264,6 +267,8 @@ func c16Show(v c16Val) string {
 		return fmt.Sprint(x.v)
 	case *c16Opq:
 		return "?" + x.why
+	case *c16Sym:
+		return "sym" + fmt.Sprint(c16SortedDeps(x.deps))
 	case *c16Ptr:
 		return "&" + c16Show(x.load())
 	case c16Nil:
